@@ -777,7 +777,21 @@ pub fn run(cfg: &Cfg) -> i32 {
             rep.count("capability_sets_in_a_large_hello");
         }
         let uri_refs: Vec<&str> = uris.iter().map(String::as_str).collect();
-        let mut s = sess::establish_ok(&uri_refs);
+        let mut s = match sess::establish(&memwire::server_hello(&uri_refs, "4242")) {
+            sess::Established::Ok(s) => s,
+            other if uris.len() > 20 => {
+                // the same capabilities in a small hello establish a session (every other set of
+                // this run does): with the session refused nothing at all can be sent
+                rep.case(Some(format!("{ci}|large-hello").as_bytes()));
+                rep.violation(
+                    "refused-although-permitted:session:hello-with-many-capabilities",
+                    &format!("no session with a server whose hello lists {} capabilities, the base capability among them: {other:?}", uris.len()),
+                    json!({"capabilities": uris.len(), "caps_index": ci, "first": &uris[..3.min(uris.len())], "last": &uris[uris.len().saturating_sub(3)..]}),
+                );
+                continue;
+            }
+            other => panic!("harness: could not establish a session with a plain hello: {other:?}"),
+        };
         rep.count("capability_sets");
         for rc in &recs {
             let expect_ok = !rc.invalid && rc.features.iter().all(|f| permitted(&caps, f));
